@@ -1,0 +1,14 @@
+//go:build verif
+
+package otto
+
+// Verification hooks for property C08 (build tag verif): exported wrappers around
+// internal array-index helpers.  They add code only and change no behaviour.
+
+// VerifStringToArrayIndex exposes stringToArrayIndex.
+func VerifStringToArrayIndex(name string) int64 { return stringToArrayIndex(name) }
+
+// VerifValueToRangeIndex exposes valueToRangeIndex.
+func VerifValueToRangeIndex(v Value, length int64, negativeIsZero bool) int64 {
+	return valueToRangeIndex(v, length, negativeIsZero)
+}
